@@ -72,7 +72,7 @@ Proof. exact rule_line_is_alternative_line. Qed.
 Print Assumptions C03_rule_line_is_alternative_line.
 
 (* the statements of runner.go / ir_loader.go that the report model mirrors are the ones in the source today *)
-Theorem C03_report_path_facts : forallb snd gen_c03_facts = true /\ (30 <= List.length gen_c03_facts)%nat.
+Theorem C03_report_path_facts : forallb snd gen_c03_facts = true /\ (28 <= List.length gen_c03_facts)%nat.
 Proof. exact (conj c03_facts_hold c03_facts_count). Qed.
 Print Assumptions C03_report_path_facts.
 
